@@ -48,7 +48,7 @@ theorem prefixPhase_safe (cx : Ctx c) (b : Bytes) (hb : Bytes.Valid b) :
   unfold prefixPhase
   split
   · next hcond =>
-    simp only [Bool.and_eq_true, bne_iff_ne, ne_eq, decide_eq_true_eq] at hcond
+    simp only [Bool.and_eq_true, ne_eq] at hcond
     refine Safe.bind (readIfValueCased_safe cx .integer 48 (by decide) b hb) ?_
     rintro ⟨zero, b1⟩ ⟨hadv, _⟩
     simp only
